@@ -1,3 +1,4 @@
+(* C01 proofs, part 5: the command layer (one lemma per run_* function), step_inv and run_inv. *)
 From Coq Require Import Lia Permutation.
 From StgV Require Import Model.StackSpec Model.LocatorSpec Proofs.NameProofs Proofs.LocatorProofs.
 From StgV Require Import Proofs.WfBasics Proofs.WfFrame Proofs.MirrorProofs Proofs.WfTxn.
@@ -733,4 +734,382 @@ Proof.
   - intros W. apply new_applied_wf; [exact W| |apply patch_commit_new].
     apply names_ok_cons; [exact Hn|exact En|]. now apply stack_collides_none.
   - frame_auto.
+Qed.
+
+(* ---------------------------------------------------------------- refresh / spill *)
+
+Lemma refresh_temp_valid : validate s_refresh_temp = true.
+Proof. vm_compute. reflexivity. Qed.
+
+Lemma uniquify_names_ok : forall nm l,
+  names_ok l -> validate nm = true ->
+  names_ok ((match uniquify nm [] l with UOk n => n | UFuel => nm end) :: l).
+Proof.
+  intros nm l Hl Hv. destruct (uniquify nm [] l) as [n|] eqn:E.
+  - apply uniquify_spec in E as [Hvn [Hx|Hf]]; [discriminate| |exact Hv].
+    apply names_ok_cons; [exact Hl|exact Hvn|]. rewrite Forall_forall in Hf. exact Hf.
+  - exfalso. now apply (uniquify_never_out_of_fuel nm [] l).
+Qed.
+
+Lemma patch_parents_plain : forall objs pc,
+  plain_closed objs -> is_patch_commit objs pc ->
+  (forall p, In p (parents_of objs pc) -> is_plain objs p).
+Proof. intros objs pc Hc [Hp _] p Hin. now apply (Hc pc p). Qed.
+
+Lemma patch_commit_copy : forall objs pc tr m sj,
+  is_patch_commit objs pc ->
+  is_patch_commit (objs ++ [plain (parents_of objs pc) tr m sj]) (length objs).
+Proof.
+  intros objs pc tr m sj [_ [p Ep]]. rewrite Ep. apply patch_commit_new.
+Qed.
+
+Lemma delete_objs : forall f t, t_objs (fst (delete_patches f t)) = t_objs t.
+Proof. intros f t. unfold delete_patches. now destruct (split_at_first f (t_applied t)). Qed.
+
+Lemma refresh_closure : forall pn tmpname t,
+  wf_txn t ->
+  good (match t_patch t pn, t_patch t tmpname with
+        | Some pc, Some tc =>
+            let old := get (t_objs t) pc in
+            let new_tree := tree_of (t_objs t) tc in
+            let t1 :=
+              if tree_eqb new_tree (tree_of (t_objs t) pc) then (t, None)
+              else
+                let '(objs', o) :=
+                  put (t_objs t)
+                      (plain (parents_of (t_objs t) pc) new_tree
+                             (match old with Some c => c_meta c | None => 0%N end)
+                             (subj_of (t_objs t) pc)) in
+                (set_objs t objs', Some o) in
+            let '(t2, _) := delete_patches (fun n => name_eqb n tmpname) (fst t1) in
+            match snd t1 with
+            | Some o => update_patch pn o t2
+            | None => TOk t2
+            end
+        | _, _ => TPanic
+        end).
+Proof.
+  intros pn tmpname t W. destruct (t_patch t pn) as [pc|] eqn:Epc; [|exact I].
+  destruct (t_patch t tmpname) as [tc|]; [|exact I]. cbv zeta.
+  apply (wt_patch t W) in Epc.
+  destruct (tree_eqb _ _); cbn [fst snd].
+  - destruct (delete_patches _ t) as [t2 inc] eqn:Ed.
+    now destruct (delete_wf _ _ _ _ W Ed) as [W2 _].
+  - unfold put. cbv beta iota. cbn [fst snd].
+    set (c := plain _ _ _ _).
+    assert (W1 : wf_txn (set_objs t (t_objs t ++ [c]))).
+    { apply wf_txn_put; [exact W|]. apply patch_parents_plain; [apply W|exact Epc]. }
+    pose proof (delete_objs (fun n => name_eqb n tmpname) (set_objs t (t_objs t ++ [c]))) as Eo.
+    destruct (delete_patches _ (set_objs t (t_objs t ++ [c]))) as [t2 inc] eqn:Ed. cbn [fst] in Eo.
+    destruct (delete_wf _ _ _ _ W1 Ed) as [W2 _].
+    apply update_patch_wf; [exact W2|]. rewrite Eo, t_objs_set_objs. now apply patch_commit_copy.
+Qed.
+
+Lemma run_refresh_inv : forall w, Inv w -> Inv (fst (run_refresh w)).
+Proof.
+  intros w Hi. unfold run_refresh.
+  destruct (open_stack PAllow w) as [op|] eqn:Eo; [apply (open_ok _ _ _ Hi) in Eo|exact Hi].
+  destruct (negb (head_top_ok op)); [inv_leaf|].
+  destruct (last_error (s_applied (op_state op))) as [pn|]; [|inv_leaf].
+  destruct (w_unmerged (op_world op)); [inv_leaf|].
+  unfold put. cbv beta iota zeta.
+  pose proof Eo as [Hiw [[Hn _] _]]. apply Inv_iff in Hiw as [_ [Hbr _]].
+  match goal with |- context [transact ?o ?a ?f ?m] =>
+    assert (Hm : Inv (fst (transact o a f m))); [|destruct (transact o a f m) as [w2 x]] end.
+  { apply transact_inv.
+    - apply op_ok_put; [exact Eo|]. intros p [<-|[]]. exact Hbr.
+    - intros W. apply new_applied_wf; [exact W| |apply patch_commit_new].
+      apply uniquify_names_ok; [exact Hn|exact refresh_temp_valid].
+    - frame_auto. }
+  cbn [fst] in Hm. destruct x; try exact Hm.
+  destruct (open_stack PAllow w2) as [op2|] eqn:Eo2; [apply (open_ok _ _ _ Hm) in Eo2|exact Hm].
+  apply transact_inv; [exact Eo2| |].
+  - intros W. now apply refresh_closure.
+  - cbv beta. set (t := begin_txn op2 _). clearbody t.
+    destruct (t_patch t pn) as [pc|]; [|exact I].
+    destruct (t_patch t _) as [tc|]; [|exact I].
+    match goal with |- frame _ (match delete_patches ?f (fst ?t1) with _ => _ end) =>
+      assert (H1 : fr t (fst t1)); [|generalize dependent t1; intros t1' H1] end.
+    { destruct (tree_eqb _ _); cbn [fst]; [apply fr_refl|]. split; [reflexivity|].
+      rewrite t_objs_set_objs. apply store_extends_put. }
+    eapply frame_fr; [exact H1|]. frame_auto.
+Qed.
+
+Lemma run_spill_inv : forall w, Inv w -> Inv (fst (run_spill w)).
+Proof.
+  intros w Hi. unfold run_spill.
+  destruct (open_stack PAllow w) as [op|] eqn:Eo; [apply (open_ok _ _ _ Hi) in Eo|exact Hi].
+  destruct (w_unmerged (op_world op)); [inv_leaf|].
+  destruct (dirty (op_world op)); [inv_leaf|].
+  destruct (negb (head_top_ok op)); [inv_leaf|].
+  destruct (last_error (s_applied (op_state op))) as [pn|]; [|inv_leaf].
+  destruct (pm_get (s_patches (op_state op)) pn) as [pc|] eqn:Epc; [|inv_leaf].
+  destruct (first_parent (w_objs (op_world op)) pc) as [par|]; [|inv_leaf].
+  unfold put. cbv beta iota zeta.
+  pose proof Eo as [Hiw [[_ [_ [_ [Hp _]]]] _]]. apply Inv_iff in Hiw as [[Hcl _] _].
+  apply Hp in Epc.
+  apply transact_inv.
+  - apply op_ok_put; [exact Eo|]. now apply patch_parents_plain.
+  - intros W. apply update_patch_wf; [exact W|]. now apply patch_commit_copy.
+  - frame_auto.
+Qed.
+
+(* ---------------------------------------------------------------- undo / redo / reset *)
+
+Lemma find_undo_state_logged : forall fuel objs so steps st,
+  find_undo_state fuel objs so steps = Some st -> exists so', state_of objs so' = Some st.
+Proof.
+  induction fuel as [|fuel IH]; intros objs so steps st H; cbn in H; [discriminate|].
+  destruct (get objs so) as [c|] eqn:Eg; [|discriminate].
+  destruct (c_state c) as [st0|] eqn:Es; [|discriminate].
+  destruct (steps =? 0)%Z.
+  - injection H as <-. exists so. unfold state_of. now rewrite Eg.
+  - match goal with H : match ?nx with _ => _ end = _ |- _ => destruct nx as [steps'|] end; [|discriminate].
+    destruct (s_prev st0) as [prev|]; [|discriminate]. eapply IH; exact H.
+Qed.
+
+Lemma nth_prev_state_logged : forall fuel objs so k st,
+  nth_prev_state fuel objs so k = Some st -> exists so', state_of objs so' = Some st.
+Proof.
+  induction fuel as [|fuel IH]; intros objs so k st H; cbn in H; [discriminate|].
+  destruct (state_of objs so) as [st0|] eqn:Es; [|discriminate].
+  destruct k as [|k].
+  - injection H as <-. eauto.
+  - destruct (s_prev st0) as [p|]; [|discriminate]. eapply IH; exact H.
+Qed.
+
+Lemma run_undo_like_inv : forall w s h m, Inv w -> Inv (fst (run_undo_like w s h m)).
+Proof.
+  intros w s h m Hi. unfold run_undo_like.
+  destruct (open_stack PRequire w) as [op|] eqn:Eo; [apply (open_ok _ _ _ Hi) in Eo|exact Hi].
+  transact_leaf. destruct (w_stack (op_world op)) as [so|]; [|apply W].
+  destruct (find_undo_state _ _ _ _) as [st|] eqn:Ef; [|apply W].
+  apply find_undo_state_logged in Ef as [so' Hs]. apply reset_wf; [exact W|].
+  now apply (proj2 (wt_store _ W) so').
+Qed.
+
+Lemma run_undo_inv : forall w n h, Inv w -> Inv (fst (run_undo w n h)).
+Proof. intros. unfold run_undo. destruct (n <? 1)%Z; [assumption|now apply run_undo_like_inv]. Qed.
+
+Lemma run_redo_inv : forall w n h, Inv w -> Inv (fst (run_redo w n h)).
+Proof.
+  intros. unfold run_redo. destruct (n =? 0)%N; [assumption|].
+  destruct (isize_max <? n)%N; [assumption|now apply run_undo_like_inv].
+Qed.
+
+Lemma run_reset_inv : forall w e h, Inv w -> Inv (fst (run_reset w e None h)).
+Proof.
+  intros w e h Hi. unfold run_reset. destruct e as [k|].
+  - destruct (open_stack PRequire w) as [op|] eqn:Eo; [apply (open_ok _ _ _ Hi) in Eo|exact Hi].
+    destruct (w_stack (op_world op)) as [so|]; [|inv_leaf].
+    destruct (nth_prev_state _ _ _ _) as [st|] eqn:Ef; [|inv_leaf].
+    apply nth_prev_state_logged in Ef as [so' Hs].
+    transact_leaf. apply reset_wf; [exact W|]. now apply (proj2 (wt_store _ W) so').
+  - destruct h; cbn [fst]; [|exact Hi]. apply Inv_iff in Hi. now apply Inv_mk.
+Qed.
+
+(* ---------------------------------------------------------------- repair *)
+
+Lemma repair_walk_ok : forall fuel objs s base commit applied patchify maybe a p stop,
+  plain_closed objs -> is_plain objs commit ->
+  (forall c, In c (patchify ++ maybe) -> is_patch_commit objs c) ->
+  repair_walk fuel objs s base commit applied patchify maybe = (a, p, stop) ->
+  (forall c, In c p -> is_patch_commit objs c) /\ is_plain objs stop.
+Proof.
+  induction fuel as [|fuel IH]; intros objs s base commit applied patchify maybe a p stop Hc Hp Hpm H;
+    cbn [repair_walk] in H.
+  - injection H as <- <- <-. split; [|exact Hp]. intros c Hi. apply Hpm. apply in_or_app. now left.
+  - destruct (parents_of objs commit) as [|parent [|q r]] eqn:Epar.
+    + injection H as <- <- <-. split; [|exact Hp]. intros c Hi. apply Hpm. apply in_or_app. now left.
+    + assert (Hpar : is_plain objs parent) by (apply (Hc commit parent Hp); rewrite Epar; now left).
+      assert (Hcm : is_patch_commit objs commit) by (split; [exact Hp|eauto]).
+      destruct (patch_of_commit s commit) as [pn|].
+      * destruct (Nat.eqb base parent).
+        -- injection H as <- <- <-. split; [|exact Hpar]. intros c Hi. apply Hpm.
+           now rewrite app_nil_r in Hi.
+        -- eapply IH; [exact Hc|exact Hpar| |exact H]. intros c Hi. apply Hpm. now rewrite app_nil_r in Hi.
+      * destruct (Nat.eqb base parent).
+        -- injection H as <- <- <-. split; [|exact Hpar]. intros c Hi.
+           rewrite app_assoc in Hi. apply in_app_or in Hi as [Hi|[<-|[]]]; [now apply Hpm|exact Hcm].
+        -- eapply IH; [exact Hc|exact Hpar| |exact H]. intros c Hi.
+           rewrite app_assoc in Hi. apply in_app_or in Hi as [Hi|[<-|[]]]; [now apply Hpm|exact Hcm].
+    + injection H as <- <- <-. split; [|exact Hp]. intros c Hi. apply Hpm. apply in_or_app. now left.
+Qed.
+
+Lemma new_applied_objs : forall n o t t', new_applied n o t = TOk t' -> t_objs t' = t_objs t.
+Proof.
+  intros n o t t' H. unfold new_applied in H.
+  destruct (first_parent _ _); [|discriminate]. destruct (t_top t); [|discriminate].
+  destruct (Nat.eqb _ _); [|discriminate]. now injection H as <-.
+Qed.
+
+Lemma repair_fold_wf : forall lower_s, LowerOK lower_s -> forall objs patchify r,
+  (forall c, In c patchify -> is_patch_commit objs c) ->
+  res_sat (fun t => wf_txn t /\ t_objs t = objs) r ->
+  res_sat (fun t => wf_txn t /\ t_objs t = objs)
+    (fold_left
+       (fun r c =>
+          tbind r (fun t =>
+            match make lower_s (subj_of (t_objs t) c) true (Some 30%N) with
+            | Ok nm =>
+                match uniquify nm [] (t_all t) with
+                | UOk pn => new_applied pn c t
+                | UFuel => TPanic
+                end
+            | _ => TPanic
+            end))
+       patchify r).
+Proof.
+  intros lower_s HL objs. induction patchify as [|c l IH]; intros r Hc Hr; cbn [fold_left]; [exact Hr|].
+  apply IH; [intros c' Hi; apply Hc; now right|].
+  eapply res_sat_tbind; [exact Hr|]. intros t [W Eo]. cbv beta.
+  destruct (make_valid lower_s HL (subj_of (t_objs t) c) true (Some 30%N)) as [nm [-> Hv]].
+  destruct (uniquify nm [] (t_all t)) as [pn|] eqn:Eu; [|exact I].
+  assert (Hn : names_ok (pn :: t_all t)).
+  { pose proof (uniquify_names_ok nm (t_all t) (wt_names t W) Hv) as H. now rewrite Eu in H. }
+  assert (Hpc : is_patch_commit (t_objs t) c) by (rewrite Eo; apply Hc; now left).
+  pose proof (new_applied_wf pn c t W Hn Hpc) as Hg.
+  destruct (new_applied pn c t) as [t'| | |] eqn:En; cbn in *; try exact Hg; try exact I.
+  split; [exact Hg|]. apply new_applied_objs in En. congruence.
+Qed.
+
+Lemma repair_appliedness_objs : forall a u h t t',
+  repair_appliedness a u h t = TOk t' -> t_objs t' = t_objs t.
+Proof.
+  intros a u h t t' H. unfold repair_appliedness in H. destruct (is_perm_of _ _); [|discriminate].
+  now injection H as <-.
+Qed.
+
+Lemma repair_base_plain : forall fuel objs s base commit nb m,
+  plain_closed objs -> is_plain objs commit -> is_plain objs nb ->
+  is_plain objs (repair_base fuel objs s base commit nb m).
+Proof.
+  induction fuel as [|fuel IH]; intros objs s base commit nb m Hcl Hc Hnb; cbn [repair_base]; [exact Hnb|].
+  destruct (parents_of objs commit) as [|p [|q l]] eqn:E; try exact Hnb.
+  assert (Hp : is_plain objs p) by (eapply Hcl; [exact Hc|rewrite E; now left]).
+  destruct (patch_of_commit s commit); destruct (Nat.eqb base p); auto.
+Qed.
+
+Lemma run_repair_inv : forall lower_s, LowerOK lower_s -> forall w, Inv w -> Inv (fst (run_repair lower_s w)).
+Proof.
+  intros lower_s HL w Hi. unfold run_repair.
+  destruct (open_stack PRequire w) as [op|] eqn:Eo; [apply (open_ok _ _ _ Hi) in Eo|exact Hi].
+  destruct (repair_walk _ _ _ _ _ _ _ _) as [[ar pr] stop] eqn:Ew.
+  pose proof Eo as [Hiw _]. apply Inv_iff in Hiw as [[Hcl _] [Hbr _]].
+  apply repair_walk_ok in Ew as [Hpc _]; [|exact Hcl|exact Hbr|intros c []].
+  assert (Hstop : is_plain (w_objs (op_world op))
+            (repair_base (S (length (w_objs (op_world op)))) (w_objs (op_world op)) (op_state op)
+               (op_base op) (w_branch (op_world op)) (w_branch (op_world op)) false))
+    by (apply repair_base_plain; assumption).
+  apply transact_inv; [exact Eo| |].
+  - intros W. cbv beta.
+    pose proof (repair_appliedness_wf (rev ar)
+      (filter (fun n => negb (mem n (rev ar))) (s_applied (op_state op)) ++
+       filter (fun n => negb (mem n (rev ar))) (s_unapplied (op_state op)))
+      (filter (fun n => negb (mem n (rev ar))) (s_hidden (op_state op))) _ W) as Hr.
+    destruct (repair_appliedness _ _ _ _) as [t0| | |] eqn:Er; cbn [tbind]; try exact Hr.
+    apply repair_appliedness_objs in Er. cbn in Hr.
+    eapply res_sat_impl; [apply (repair_fold_wf lower_s HL (w_objs (op_world op)))|intros t [H _]; exact H].
+    + intros c Hi'. apply Hpc. now apply in_rev.
+    + cbn [res_sat]. split; [|exact Er]. apply wf_txn_set_base; [exact Hr|]. now rewrite Er.
+  - cbv beta. apply frame_tbind; [auto with frames|]. intros t0 _.
+    eapply frame_fr; [|apply frame_fold_tbind].
+    + instantiate (1 := set_base t0 (Some _)). fr_triv.
+    + intros c t1. cbv beta. frame_auto.
+    + apply fr_refl.
+Qed.
+
+(* ---------------------------------------------------------------- log --clear, init, git *)
+
+Lemma run_log_clear_inv : forall w, Inv w -> Inv (fst (run_log_clear w)).
+Proof.
+  intros w Hi. unfold run_log_clear.
+  destruct (open_stack PRequire w) as [op|] eqn:Eo; [apply (open_ok _ _ _ Hi) in Eo|exact Hi].
+  destruct (state_commit _ _ _) as [[objs' so]|] eqn:Ec; [|inv_leaf].
+  destruct Eo as [Hiw [Hs _]]. apply Inv_iff in Hiw as [Hok [Hbr _]].
+  apply state_commit_ok in Ec as [Hok' [He' Hs']]; [|exact Hok|exact Hs].
+  cbn [fst]. apply Inv_mk. split; [exact Hok'|]. split; [now apply (is_plain_ext _ _ _ He')|eauto].
+Qed.
+
+Lemma ancestor_plain : forall objs k o o',
+  plain_closed objs -> is_plain objs o -> ancestor objs o k = Some o' -> is_plain objs o'.
+Proof.
+  intros objs. induction k as [|k IH]; intros o o' Hc Ho H; cbn in H.
+  - now injection H as <-.
+  - destruct (first_parent objs o) as [p|] eqn:Ep; [|discriminate].
+    apply (IH p o' Hc); [|exact H]. eapply first_parent_plain; eauto.
+Qed.
+
+Lemma Inv_put_plain : forall w ps tr m sj wt um,
+  Inv w -> (forall p, In p ps -> is_plain (w_objs w) p) ->
+  Inv (mkWorld (w_objs w ++ [plain ps tr m sj]) (length (w_objs w)) (w_stack w) (w_prefs w) wt um (w_base w)).
+Proof.
+  intros w ps tr m sj wt um Hi Hp. apply Inv_iff in Hi as [Hok [Hbr Hst]]. apply Inv_mk.
+  split; [now apply store_ok_put_plain|]. split; [apply plain_new|].
+  destruct (w_stack w) as [so|]; [|exact I]. destruct Hst as [s Hs]. exists s. now apply state_of_mono.
+Qed.
+
+Lemma run_git_inv : forall w c, Inv w -> Inv (fst (run_git w c)).
+Proof.
+  intros w c Hi. pose proof Hi as Hi'. apply Inv_iff in Hi' as [[Hcl Hst] [Hbr Hsk]].
+  destruct c; cbn [run_git]; unfold put; cbn [fst]; try exact Hi.
+  - unfold with_branch. apply Inv_put_plain; [exact Hi|]. intros p [<-|[]]. exact Hbr.
+  - unfold with_branch. apply Inv_put_plain; [exact Hi|]. intros p Hp. now apply (Hcl (w_branch w) p).
+  - match goal with |- context [match ?x with Some _ => _ | None => _ end] =>
+      assert (Ht : forall o, x = Some o -> is_plain (w_objs w) o); [|destruct x as [o|]] end.
+    { intros o E. destruct target as [n|k|k].
+      - destruct (cur_state w) as [s|] eqn:Es; [|discriminate]. unfold cur_state in Es.
+        destruct (w_stack w) as [so|]; [|discriminate]. apply Hst in Es as [_ [_ [_ [Hp _]]]].
+        now apply Hp in E as [E _].
+      - destruct (cur_state w) as [s|] eqn:Es; [|discriminate]. unfold cur_state in Es.
+        destruct (w_stack w) as [so|]; [|discriminate]. apply Hst in Es.
+        destruct (stack_base _ _ s) as [b|] eqn:Eb; [|discriminate].
+        eapply ancestor_plain; [exact Hcl| |exact E]. eapply stack_base_plain; eauto. split; assumption.
+      - eapply ancestor_plain; eauto. }
+    + cbn [fst]. apply Inv_mk. split; [split; assumption|]. split; [now apply Ht|exact Hsk].
+    + exact Hi.
+  - destruct (first_parent _ _) as [p|] eqn:Ep; [|exact Hi]. cbn [fst].
+    apply Inv_put_plain; [exact Hi|]. intros q [<-|[<-|[]]]; [exact Hbr|]. eapply first_parent_plain; eauto.
+Qed.
+
+(* ---------------------------------------------------------------- the theorems *)
+
+Theorem step_inv : forall lower_s, LowerOK lower_s ->
+  forall w c, in_scope c = true -> Inv w -> Inv (fst (step lower_s w c)).
+Proof.
+  intros lower_s HL w c Hs Hi. destruct c; cbn [step].
+  - destruct (open_stack PMust w) as [op|] eqn:Eo; [|exact Hi]. now apply (open_ok _ _ _ Hi) in Eo as [H _].
+  - now apply run_new_inv.
+  - now apply run_refresh_inv.
+  - now apply run_push_inv.
+  - now apply run_pop_inv.
+  - now apply run_goto_inv.
+  - now apply run_float_inv.
+  - now apply run_sink_inv.
+  - now apply run_delete_inv.
+  - now apply run_hide_inv.
+  - now apply run_unhide_inv.
+  - now apply run_rename_inv.
+  - now apply run_commit_inv.
+  - now apply run_uncommit_inv.
+  - now apply run_clean_inv.
+  - now apply run_spill_inv.
+  - now apply run_undo_inv.
+  - now apply run_redo_inv.
+  - destruct ranges; [discriminate|]. now apply run_reset_inv.
+  - now apply run_repair_inv.
+  - now apply run_log_clear_inv.
+  - destruct (open_stack PAllow w) as [op|] eqn:Eo; [|exact Hi]. now apply (open_ok _ _ _ Hi) in Eo as [H _].
+  - now apply run_git_inv.
+  - now apply run_git_inv.
+  - now apply run_git_inv.
+  - now apply run_git_inv.
+  - now apply run_git_inv.
+Qed.
+
+Theorem run_inv : forall lower_s, LowerOK lower_s ->
+  forall cs w, forallb in_scope cs = true -> Inv w -> Inv (run lower_s w cs).
+Proof.
+  intros lower_s HL. induction cs as [|c cs IH]; intros w Hs Hi; cbn in *; [exact Hi|].
+  apply andb_true_iff in Hs as [H1 H2]. apply IH; [exact H2|]. now apply step_inv.
 Qed.
